@@ -4,6 +4,16 @@ From Coquelicot Require Import Complex.
 From OdakV Require Import Base.RealAux Wave.Fields Wave.Kernels C04.Model.
 Open Scope R_scope.
 
+(* side conditions of field *)
+Lemma sq_pos_of_neq x : x <> 0 -> 0 < x * x.
+Proof. intros H. destruct (Rtotal_order x 0) as [Hx | [Hx | Hx]]; [nra | contradiction | nra]. Qed.
+Ltac sqpos := repeat match goal with H : ?x <> 0 |- _ =>
+  let T := constr:(0 < x * x) in
+  lazymatch goal with _ : T |- _ => fail | _ => idtac end; pose proof (sq_pos_of_neq x H) end.
+Ltac kw k w0 := assert (k * w0 ^ 2 <> 0) by (apply Rmult_integral_contrapositive_currified; [assumption | apply pow_nonzero; assumption]);
+  sqpos; assert (0 < w0 ^ 4) by nra; assert (0 < w0 * w0 * (k * k)) by nra.
+Ltac nz := repeat split; first [assumption | apply PI_neq0 | lra | nra | (intro; nra)].
+
 (* ------------------------------------------------------------------ paraxial expansion of the square root *)
 Lemma sqrt_paraxial x : 0 <= x <= 1 -> 0 <= (1 - x / 2) - sqrt (1 - x) <= x ^ 2 / 2.
 Proof.
@@ -105,7 +115,7 @@ Proof. unfold ph_tf_legacy, ph_tf. ring. Qed.
    With a = k / 2z this is the statement that the coefficients and the prefactor of odak's impulse response
    are those of its transfer function. *)
 Lemma ir_tf_pair_coeff lam z : lam <> 0 -> z <> 0 -> - (PI ^ 2 / ir_quad (wavenum lam) z) = tf_quad lam z.
-Proof. intros Hl Hz. unfold ir_quad, tf_quad, wavenum. field. repeat split; try assumption. apply PI_neq0. Qed.
+Proof. intros Hl Hz. assert (Hp := PI_neq0). unfold ir_quad, tf_quad, wavenum. field. repeat split; assumption. Qed.
 Lemma ir_tf_pair_prefactor lam z : lam <> 0 -> z <> 0 ->
   Cmult (ir_pref lam z) (Cmult Ci (RtoC (PI / ir_quad (wavenum lam) z))) = RtoC 1.
 Proof.
@@ -117,7 +127,8 @@ Proof.
   intros Hk Hl Hz. unfold ir_quad, tf_quad.
   assert (Hp := PI_RGT_0).
   replace (k / (2 * z) * - (PI * lam * z)) with (- (k * PI * lam / 2)) by (field; exact Hz).
-  assert (0 < k * PI * lam) by (repeat apply Rmult_lt_0_compat; lra). lra.
+  assert (0 < k * PI) by (apply Rmult_lt_0_compat; lra).
+  assert (0 < k * PI * lam) by (apply Rmult_lt_0_compat; lra). lra.
 Qed.
 Lemma ir_quad_sign k z : 0 < k -> (0 < z -> 0 < ir_quad k z) /\ (z < 0 -> ir_quad k z < 0).
 Proof.
@@ -182,7 +193,7 @@ Qed.
 
 (* ------------------------------------------------------------------ Gaussian beam *)
 Lemma cz_lambda lam z : lam <> 0 -> cz (wavenum lam) z = lam * z / PI.
-Proof. intros Hl. unfold cz, wavenum. field. split; [exact Hl | apply PI_neq0]. Qed.
+Proof. intros Hl. unfold cz, wavenum. field. nz. Qed.
 (* spectrum of the waist times the Fresnel transfer function = spectrum of the beam of parameter s(z):
    -pi^2 f^2 s + i tf_quad f^2 = -pi^2 f^2 (s + i lam z / pi) *)
 Lemma gauss_q lam z (s : C) f2 : lam <> 0 ->
@@ -206,9 +217,6 @@ Proof.
   intros Hl. unfold q_prop_legacy. rewrite cz_lambda by exact Hl. destruct s as [a b].
   unfold Cplus, Cmult, RtoC, tf_quad; simpl. f_equal; field; apply PI_neq0.
 Qed.
-Lemma q_prop_legacy_is_backwards k z s : q_prop_legacy k z s = q_prop k (- z) s.
-Proof. unfold q_prop_legacy, q_prop, cz. f_equal. f_equal. field_simplify_eq; [ring|]. Abort.
-
 Lemma q_prop_legacy_is_backwards k z s : k <> 0 -> q_prop_legacy k z s = q_prop k (- z) s.
 Proof. intros Hk. unfold q_prop_legacy, q_prop, cz. f_equal. f_equal. field. exact Hk. Qed.
 Lemma q_prop_add k z1 z2 s : k <> 0 -> q_prop k z2 (q_prop k z1 s) = q_prop k (z1 + z2) s.
@@ -222,8 +230,8 @@ Lemma gq_den_pos k w0 z : w0 <> 0 -> 0 < (w0 ^ 2) ^ 2 + cz k z ^ 2.
 Proof. intros Hw. assert (0 < w0 ^ 2) by nra. nra. Qed.
 Lemma zR_neq0 k w0 : k <> 0 -> w0 <> 0 -> zR k w0 <> 0.
 Proof.
-  intros Hk Hw. unfold zR. assert (w0 ^ 2 <> 0) by (apply pow_nonzero; exact Hw).
-  unfold Rdiv. repeat apply Rmult_integral_contrapositive_currified; try assumption. lra.
+  intros Hk Hw. unfold zR. assert (Hw2 : w0 ^ 2 <> 0) by (apply pow_nonzero; exact Hw).
+  intros E. assert (E2 : k * w0 ^ 2 = 0) by lra. apply Rmult_integral in E2. tauto.
 Qed.
 Lemma gauss_w2_pos k w0 z : k <> 0 -> w0 <> 0 -> 0 < gauss_w2 k w0 z.
 Proof. intros Hk Hw. unfold gauss_w2. assert (0 < w0 ^ 2) by nra. nra. Qed.
@@ -236,12 +244,12 @@ Proof.
   assert (Hd2 : w0 ^ 2 * w0 ^ 2 + cz k z * cz k z <> 0) by nra.
   f_equal.
   - unfold zR, cz in *. field. repeat split; try assumption. nra.
-  - unfold cz in *. field. repeat split; try assumption; nra.
+  - unfold Rdiv. ring.
 Qed.
 Lemma gauss_width k w0 z : k <> 0 -> w0 <> 0 -> 1 / fst (Cinv (gq k w0 z)) = w0 ^ 2 * (1 + (z / zR k w0) ^ 2).
 Proof.
   intros Hk Hw. rewrite gauss_inv by assumption. simpl. pose proof (gauss_w2_pos k w0 z Hk Hw).
-  unfold gauss_w2 in *. field. split; [apply zR_neq0; assumption | nra].
+  pose proof (zR_neq0 k w0 Hk Hw). sqpos. unfold gauss_w2 in *. field. nz.
 Qed.
 (* wavefront curvature: the exponent - r^2 / s has the imaginary part + beta r^2 and beta has the sign of z
    (diverging behind the waist, like the impulse response exp(+i k r^2 / 2z)) *)
@@ -267,78 +275,243 @@ Proof.
 Qed.
 Lemma gauss_beta_radius k w0 z : k <> 0 -> w0 <> 0 -> z <> 0 -> gauss_beta k w0 z = k / (2 * gauss_radius k w0 z).
 Proof.
-  intros Hk Hw Hz. pose proof (gq_den_pos k w0 z Hw) as Hd.
-  unfold gauss_beta, gauss_radius, zR, cz in *.
-  assert (Hr : z + (k * w0 ^ 2 / 2) ^ 2 / z <> 0).
-  { assert (E : z + (k * w0 ^ 2 / 2) ^ 2 / z = (z * z + (k * w0 ^ 2 / 2) ^ 2) / z) by (field; exact Hz).
-    rewrite E. unfold Rdiv. apply Rmult_integral_contrapositive_currified; [|apply Rinv_neq_0_compat; exact Hz].
-    assert (0 < z * z) by nra. assert (0 <= (k * w0 ^ 2 / 2) ^ 2) by nra. lra. }
-  field. repeat split; try assumption; try lra.
-  - intros E. apply Hr. rewrite <- E. field. exact Hz.
-  - nra.
+  intros Hk Hw Hz. kw k w0.
+  unfold gauss_beta, gauss_radius, zR, cz. field. nz.
 Qed.
 (* on-axis amplitude w0 / w(z) *)
 Lemma gauss_amplitude k w0 z : k <> 0 -> w0 <> 0 ->
   n2 (Cdiv (RtoC (w0 ^ 2)) (gq k w0 z)) = gauss_amp2 k w0 z.
 Proof.
-  intros Hk Hw. pose proof (gq_den_pos k w0 z Hw) as Hd. pose proof (zR_neq0 k w0 Hk Hw) as Hz.
+  intros Hk Hw. kw k w0.
   unfold gauss_amp2, gauss_w2, n2, Cdiv, Cmult, Cinv, gq, RtoC; simpl.
-  unfold zR, cz in *. field. repeat split; try assumption; nra.
+  unfold zR, cz. field. nz.
 Qed.
 Lemma gauss_waist k w0 : k <> 0 -> w0 <> 0 ->
   gauss_w2 k w0 0 = w0 ^ 2 /\ gauss_beta k w0 0 = 0 /\ gauss_amp2 k w0 0 = 1.
 Proof.
-  intros Hk Hw. pose proof (zR_neq0 k w0 Hk Hw) as Hz. assert (Hw2 : w0 ^ 2 <> 0) by (apply pow_nonzero; exact Hw).
-  unfold gauss_amp2, gauss_w2, gauss_beta, cz. repeat split; field; try assumption.
-  - split; [assumption|]. intro E. nra.
-  - split; [exact Hz | exact Hw].
+  intros Hk Hw. kw k w0.
+  unfold gauss_amp2, gauss_w2, gauss_beta, zR, cz. repeat split; field; nz.
 Qed.
 (* amplitude and width do not see the sign of z, the curvature does: it is the observable that separates
    a kernel from its conjugate *)
 Lemma gauss_even_odd k w0 z : k <> 0 -> w0 <> 0 ->
   gauss_w2 k w0 (- z) = gauss_w2 k w0 z /\ gauss_amp2 k w0 (- z) = gauss_amp2 k w0 z /\ gauss_beta k w0 (- z) = - gauss_beta k w0 z.
 Proof.
-  intros Hk Hw. pose proof (gq_den_pos k w0 z Hw) as Hd. pose proof (zR_neq0 k w0 Hk Hw) as Hz.
-  assert (E : gauss_w2 k w0 (- z) = gauss_w2 k w0 z) by (unfold gauss_w2; field; exact Hz).
+  intros Hk Hw. kw k w0.
+  assert (E : gauss_w2 k w0 (- z) = gauss_w2 k w0 z) by (unfold gauss_w2, zR; field; nz).
   repeat split; [exact E | unfold gauss_amp2; rewrite E; reflexivity |].
-  unfold gauss_beta, cz in *. field. split; [nra | exact Hk].
+  unfold gauss_beta, cz. field. nz.
 Qed.
-(* overlap of the beam with its own conjugate (the beam of the opposite curvature), normalised: 1 / (1 + (z/zR)^2) *)
+(* squared normalised overlap of the beam with the beam of the opposite curvature: 1 / (1 + (z/zR)^2) *)
 Lemma gauss_conj_overlap k w0 z : k <> 0 -> w0 <> 0 ->
   n2 (Cdiv (RtoC (2 * fst (Cinv (gq k w0 z)))) (Cmult (RtoC 2) (Cinv (gq k w0 z)))) = 1 / (1 + (z / zR k w0) ^ 2).
 Proof.
-  intros Hk Hw. rewrite gauss_inv by assumption. simpl.
-  pose proof (gq_den_pos k w0 z Hw) as Hd. pose proof (zR_neq0 k w0 Hk Hw) as Hz. pose proof (gauss_w2_pos k w0 z Hk Hw) as Hp.
-  unfold n2, Cdiv, Cmult, Cinv, RtoC, gauss_w2, gauss_beta in *; simpl.
-  unfold zR, cz in *. field. repeat split; try assumption; try nra.
+  intros Hk Hw. kw k w0.
+  unfold n2, Cdiv, Cmult, Cinv, RtoC, gq; simpl.
+  unfold zR, cz. field. nz.
 Qed.
 
 (* ------------------------------------------------------------------ Gaussian beam through the library's lens *)
 Definition tpar (k w0 f : R) : R := zR k w0 / f.
+Lemma tpar_neq0 k w0 f : k <> 0 -> w0 <> 0 -> f <> 0 -> tpar k w0 f <> 0.
+Proof.
+  intros Hk Hw Hf. unfold tpar, Rdiv. apply Rmult_integral_contrapositive_currified;
+    [apply zR_neq0; assumption | apply Rinv_neq_0_compat; exact Hf].
+Qed.
 Lemma q_lens_value k w0 f : k <> 0 -> w0 <> 0 -> f <> 0 ->
   q_lens k w0 f = (w0 ^ 2 / (1 + tpar k w0 f ^ 2), - (w0 ^ 2 * tpar k w0 f / (1 + tpar k w0 f ^ 2))).
 Proof.
-  intros Hk Hw Hf. assert (Hw2 : w0 ^ 2 <> 0) by (apply pow_nonzero; exact Hw).
-  assert (Ht : 0 < 1 + tpar k w0 f ^ 2) by nra.
-  unfold q_lens, q_phase, lens_quad, Cinv, Cplus, RtoC; simpl. unfold tpar, zR in *.
-  assert (Hd : 0 < (1 / w0 ^ 2) ^ 2 + (k / (2 * f)) ^ 2).
-  { assert (0 < (1 / w0 ^ 2) ^ 2). { assert (1 / w0 ^ 2 <> 0) by (unfold Rdiv; rewrite Rmult_1_l; apply Rinv_neq_0_compat; exact Hw2). nra. } nra. }
-  f_equal; field; repeat split; try assumption; try lra.
-  all: try (intro E; nra).
+  intros Hk Hw Hf. kw k w0.
+  unfold q_lens, q_phase, lens_quad, Cinv, Cplus, RtoC; simpl. unfold tpar, zR.
+  f_equal; field; nz.
 Qed.
 (* contrast between the two candidate focal planes: exactly 1 + 4 (zR / f)^2 in favour of +f *)
 Lemma lens_gauss_contrast k w0 f : k <> 0 -> w0 <> 0 -> f <> 0 ->
   on_axis k (q_lens k w0 f) f = (1 + 4 * tpar k w0 f ^ 2) * on_axis k (q_lens k w0 f) (- f).
 Proof.
   intros Hk Hw Hf. rewrite q_lens_value by assumption.
-  assert (Hw2 : w0 ^ 2 <> 0) by (apply pow_nonzero; exact Hw).
-  assert (Hz : zR k w0 <> 0) by (apply zR_neq0; assumption).
-  assert (Ht : tpar k w0 f <> 0) by (unfold tpar, Rdiv; apply Rmult_integral_contrapositive_currified; [exact Hz | apply Rinv_neq_0_compat; exact Hf]).
-  assert (Ecf : cz k f = w0 ^ 2 / tpar k w0 f) by (unfold cz, tpar, zR; field; repeat split; assumption).
-  assert (Ecf' : cz k (- f) = - (w0 ^ 2 / tpar k w0 f)) by (unfold cz, tpar, zR; field; repeat split; assumption).
+  pose proof (tpar_neq0 k w0 f Hk Hw Hf) as Ht.
+  assert (Ecf : cz k f = w0 ^ 2 / tpar k w0 f) by (unfold cz, tpar, zR; field; nz).
+  assert (Ecf' : cz k (- f) = - (w0 ^ 2 / tpar k w0 f)) by (unfold cz, tpar, zR; field; nz).
   unfold on_axis, q_prop, Cplus, n2; simpl. rewrite Ecf, Ecf'.
-  set (t := tpar k w0 f) in *. set (W := w0 ^ 2) in *.
-  assert (H1 : 0 < 1 + t ^ 2) by nra. assert (H4 : 0 < 1 + 4 * t ^ 2) by nra.
-  field. repeat split; try assumption; try lra.
-  all: try (intro E; nra).
-Admitted.
+  set (t := tpar k w0 f) in *. sqpos. assert (0 < w0 ^ 4) by nra. assert (0 < t ^ 2) by nra.
+  field. nz.
+Qed.
+(* the conjugated kernel inverts it: with the pre-repair transfer function +f and -f swap their roles *)
+Lemma lens_gauss_contrast_legacy k w0 f : k <> 0 -> w0 <> 0 -> f <> 0 ->
+  on_axis_legacy k (q_lens k w0 f) (- f) = (1 + 4 * tpar k w0 f ^ 2) * on_axis_legacy k (q_lens k w0 f) f.
+Proof.
+  intros Hk Hw Hf. pose proof (lens_gauss_contrast k w0 f Hk Hw Hf) as H.
+  unfold on_axis_legacy. rewrite !q_prop_legacy_is_backwards by exact Hk. rewrite Ropp_involutive. exact H.
+Qed.
+(* in the plane z = f the spot has the classical radius w0 f / zR = lam f / (pi w0), the wavefront is ... *)
+Lemma lens_gauss_spot k w0 f : k <> 0 -> w0 <> 0 -> f <> 0 ->
+  1 / fst (Cinv (q_prop k f (q_lens k w0 f))) = (w0 * f / zR k w0) ^ 2.
+Proof.
+  intros Hk Hw Hf. rewrite q_lens_value by assumption.
+  pose proof (tpar_neq0 k w0 f Hk Hw Hf) as Ht. pose proof (zR_neq0 k w0 Hk Hw) as Hz.
+  assert (Ecf : cz k f = w0 ^ 2 / tpar k w0 f) by (unfold cz, tpar, zR; field; nz).
+  replace (w0 * f / zR k w0) with (w0 / tpar k w0 f) by (unfold tpar; field; nz).
+  unfold q_prop, Cplus, Cinv; simpl. rewrite Ecf.
+  set (t := tpar k w0 f) in *. sqpos. assert (0 < w0 ^ 4) by nra. assert (0 < t ^ 2) by nra.
+  field. nz.
+Qed.
+(* the on-axis intensity in the focal plane exceeds the intensity at the lens by (zR/f)^2 (1 + (zR/f)^2) / ... : it is > 1
+   exactly when the beam is focused, and the plane -f is always dimmer than the lens plane *)
+Lemma lens_gauss_gain k w0 f : k <> 0 -> w0 <> 0 -> f <> 0 ->
+  on_axis k (q_lens k w0 f) f = tpar k w0 f ^ 2 /\ on_axis k (q_lens k w0 f) (- f) < 1.
+Proof.
+  intros Hk Hw Hf. pose proof (lens_gauss_contrast k w0 f Hk Hw Hf) as Hc.
+  assert (E : on_axis k (q_lens k w0 f) f = tpar k w0 f ^ 2).
+  { rewrite q_lens_value by assumption.
+    pose proof (tpar_neq0 k w0 f Hk Hw Hf) as Ht.
+    assert (Ecf : cz k f = w0 ^ 2 / tpar k w0 f) by (unfold cz, tpar, zR; field; nz).
+    unfold on_axis, q_prop, Cplus, n2; simpl. rewrite Ecf.
+    set (t := tpar k w0 f) in *. sqpos. assert (0 < w0 ^ 4) by nra. assert (0 < t ^ 2) by nra.
+    field. nz. }
+  split; [exact E|]. rewrite E in Hc.
+  pose proof (tpar_neq0 k w0 f Hk Hw Hf) as Ht. sqpos.
+  set (t := tpar k w0 f) in *. set (I := on_axis k (q_lens k w0 f) (- f)) in *. nra.
+Qed.
+
+(* ------------------------------------------------------------------ the executable copy over Q agrees with the real model *)
+Lemma Q2R_zero : Q2R 0 = 0.
+Proof. unfold Q2R; simpl. lra. Qed.
+Lemma Q2R_one : Q2R 1 = 1.
+Proof. unfold Q2R; simpl. lra. Qed.
+Lemma Q2R_two : Q2R 2 = 2.
+Proof. unfold Q2R; simpl. lra. Qed.
+Lemma Q2R_four : Q2R 4 = 4.
+Proof. unfold Q2R; simpl. lra. Qed.
+Lemma Q2R_neq0 q : ~ (q == 0)%Q <-> Q2R q <> 0.
+Proof.
+  split; intros H E; apply H.
+  - apply eqR_Qeq. rewrite E, Q2R_zero. reflexivity.
+  - rewrite (Qeq_eqR _ _ E). apply Q2R_zero.
+Qed.
+Lemma two_neq0 : ~ (2 == 0)%Q.
+Proof. discriminate. Qed.
+Lemma Q2R_q_zR k w0 : Q2R (q_zR k w0) = zR (Q2R k) (Q2R w0).
+Proof.
+  unfold q_zR, zR. rewrite Q2R_div by exact two_neq0. rewrite !Q2R_mult, Q2R_two. simpl. field.
+Qed.
+Section QModel.
+Variables k w0 z f : Q.
+Hypothesis Hk : ~ (k == 0)%Q.
+Hypothesis Hw : ~ (w0 == 0)%Q.
+Let Hk' : Q2R k <> 0 := proj1 (Q2R_neq0 k) Hk.
+Let Hw' : Q2R w0 <> 0 := proj1 (Q2R_neq0 w0) Hw.
+Lemma q_zR_neq0 : ~ (q_zR k w0 == 0)%Q.
+Proof. apply Q2R_neq0. rewrite Q2R_q_zR. apply zR_neq0; assumption. Qed.
+Lemma Q2R_q_w2 : Q2R (q_w2 k w0 z) = gauss_w2 (Q2R k) (Q2R w0) (Q2R z).
+Proof.
+  unfold q_w2, gauss_w2. rewrite Q2R_mult, Q2R_plus, !Q2R_mult, Q2R_one, Q2R_div by exact q_zR_neq0.
+  rewrite Q2R_q_zR. simpl. ring.
+Qed.
+Lemma q_w2_neq0 : ~ (q_w2 k w0 z == 0)%Q.
+Proof.
+  apply Q2R_neq0. rewrite Q2R_q_w2. pose proof (gauss_w2_pos (Q2R k) (Q2R w0) (Q2R z) Hk' Hw'). lra.
+Qed.
+Lemma Q2R_q_amp2 : Q2R (q_amp2 k w0 z) = gauss_amp2 (Q2R k) (Q2R w0) (Q2R z).
+Proof.
+  unfold q_amp2, gauss_amp2. rewrite Q2R_div by exact q_w2_neq0. rewrite Q2R_mult, Q2R_q_w2. simpl. field.
+  pose proof (gauss_w2_pos (Q2R k) (Q2R w0) (Q2R z) Hk' Hw'). lra.
+Qed.
+Lemma Q2R_cz : Q2R (2 * z / k) = cz (Q2R k) (Q2R z).
+Proof. unfold cz. rewrite Q2R_div by exact Hk. rewrite Q2R_mult, Q2R_two. reflexivity. Qed.
+Lemma q_beta_den : Q2R (w0 * w0 * (w0 * w0) + 2 * z / k * (2 * z / k)) = (Q2R w0 ^ 2) ^ 2 + cz (Q2R k) (Q2R z) ^ 2.
+Proof. rewrite Q2R_plus, !Q2R_mult, Q2R_cz. simpl. ring. Qed.
+Lemma Q2R_q_beta : Q2R (q_beta k w0 z) = gauss_beta (Q2R k) (Q2R w0) (Q2R z).
+Proof.
+  unfold q_beta, gauss_beta.
+  assert (Hd : ~ (w0 * w0 * (w0 * w0) + 2 * z / k * (2 * z / k) == 0)%Q).
+  { apply Q2R_neq0. rewrite q_beta_den. pose proof (gq_den_pos (Q2R k) (Q2R w0) (Q2R z) Hw'). lra. }
+  rewrite Q2R_div by exact Hd. rewrite q_beta_den, Q2R_cz. reflexivity.
+Qed.
+Hypothesis Hf : ~ (f == 0)%Q.
+Let Hf' : Q2R f <> 0 := proj1 (Q2R_neq0 f) Hf.
+Lemma Q2R_q_contrast : Q2R (q_contrast k w0 f) = 1 + 4 * tpar (Q2R k) (Q2R w0) (Q2R f) ^ 2.
+Proof.
+  unfold q_contrast, tpar. rewrite Q2R_plus, !Q2R_mult, Q2R_one, Q2R_four, Q2R_div by exact Hf.
+  rewrite Q2R_q_zR. simpl. ring.
+Qed.
+Lemma Q2R_q_spot2 : Q2R (q_spot2 k w0 f) = (Q2R w0 * Q2R f / zR (Q2R k) (Q2R w0)) ^ 2.
+Proof.
+  unfold q_spot2. rewrite Q2R_mult, Q2R_div by exact q_zR_neq0. rewrite Q2R_mult, Q2R_q_zR. simpl. ring.
+Qed.
+End QModel.
+(* the values computed by vm_compute are those of the real model (Qred does not change the value) *)
+Lemma q_predict_sound k w0 z f : ~ (k == 0)%Q -> ~ (w0 == 0)%Q -> ~ (f == 0)%Q ->
+  List.map Q2R (q_predict k w0 z f) =
+  (gauss_w2 (Q2R k) (Q2R w0) (Q2R z) :: gauss_amp2 (Q2R k) (Q2R w0) (Q2R z) :: gauss_beta (Q2R k) (Q2R w0) (Q2R z)
+   :: (1 + 4 * tpar (Q2R k) (Q2R w0) (Q2R f) ^ 2) :: (Q2R w0 * Q2R f / zR (Q2R k) (Q2R w0)) ^ 2 :: nil)%list.
+Proof.
+  intros Hk Hw Hf. unfold q_predict. cbn [List.map].
+  rewrite !(Qeq_eqR _ _ (Qred_correct _)).
+  rewrite Q2R_q_w2, Q2R_q_amp2, Q2R_q_beta, Q2R_q_contrast, Q2R_q_spot2 by assumption. reflexivity.
+Qed.
+
+(* ------------------------------------------------------------------ statements in the shape the per-run tie uses *)
+Lemma sin2_grid_le_1 lam fx fy : 0 <= 1 - (lam * fx) ^ 2 - (lam * fy) ^ 2 -> sin2 lam fx fy <= 1.
+Proof. intros H. unfold sin2. nra. Qed.
+(* pa, pt: traced phases of an angular-spectrum and a Fresnel transfer-function sample at an in-band frequency *)
+Lemma tie_as_tf lam dx z fx fy pa pt : 0 < dx -> 0 < lam -> lam * lam <= 2 * (dx * dx) ->
+  Rabs fx <= 1 / (2 * dx) -> Rabs fy <= 1 / (2 * dx) ->
+  pa = z * kz_as lam fx fy -> pt = z * kz_tf lam fx fy ->
+  pa = ph_as lam z fx fy /\ pt = ph_tf lam z fx fy /\
+  Rabs (pa - pt) <= Rabs (wavenum lam * z) * (sin2 lam fx fy ^ 2 / 2) /\
+  pt = wavenum lam * z + tf_quad lam z * (fx ^ 2 + fy ^ 2) /\
+  (0 < z -> 0 <= pa /\ 0 < pt) /\ (z < 0 -> pa <= 0 /\ pt < 0).
+Proof.
+  intros Hd Hl Hg Hx Hy Ea Et.
+  pose proof (as_all_propagating lam dx fx fy Hl Hd Hg Hx Hy) as Hp.
+  pose proof (sin2_grid_le_1 lam fx fy Hp) as Hs.
+  assert (Hka : 0 <= kz_as lam fx fy).
+  { rewrite kz_as_sin2. apply Rmult_le_pos; [apply Rlt_le, wavenum_pos, Hl | apply sqrt_pos]. }
+  assert (Hkt : 0 < kz_tf lam fx fy) by (apply kz_tf_pos; [exact Hl | lra]).
+  subst pa pt. repeat split; try reflexivity.
+  - apply as_tf_close; assumption.
+  - apply tf_quadratic.
+  - nra.
+  - nra.
+  - nra.
+  - nra.
+Qed.
+Lemma sqrt_scale lam q : 0 < lam -> sqrt (1 / lam ^ 2 - q) = sqrt (1 - lam ^ 2 * q) / lam.
+Proof.
+  intros Hl. replace (1 / lam ^ 2 - q) with ((1 - lam ^ 2 * q) * (/ lam * / lam)) by (field; lra).
+  destruct (Rle_lt_dec 0 (1 - lam ^ 2 * q)) as [Hp | Hn].
+  - rewrite sqrt_mult_alt by exact Hp. rewrite sqrt_square by (apply Rlt_le, Rinv_0_lt_compat; exact Hl). reflexivity.
+  - assert (Hi : 0 < / lam * / lam) by (apply Rmult_lt_0_compat; apply Rinv_0_lt_compat; exact Hl).
+    rewrite (sqrt_neg_0 (1 - lam ^ 2 * q)) by lra. rewrite sqrt_neg_0 by nra. unfold Rdiv. ring.
+Qed.
+Lemma blgrid_in_band dx n i : 0 < dx -> (2 <= n)%nat -> (i < n)%nat -> Rabs (blgrid dx n i) <= 1 / (2 * dx).
+Proof.
+  intros Hd Hn Hi. unfold blgrid.
+  assert (Hn1 : 0 < INR (n - 1)) by (apply lt_0_INR; lia).
+  assert (Hn0 : 2 <= INR n) by (change 2 with (INR 2); apply le_INR; exact Hn).
+  assert (Hi1 : 0 <= INR i <= INR (n - 1)) by (split; [apply pos_INR | apply le_INR; lia]).
+  set (t := INR i / INR (n - 1)).
+  assert (Ht : 0 <= t <= 1).
+  { unfold t. split; [apply Rmult_le_pos; [lra | apply Rlt_le, Rinv_0_lt_compat; lra]|].
+    apply Rmult_le_reg_r with (INR (n - 1)); [lra|]. unfold Rdiv. rewrite Rmult_assoc, Rinv_l by lra. lra. }
+  set (e := / (2 * INR n)).
+  assert (He : 0 < e <= / 4).
+  { unfold e. split; [apply Rinv_0_lt_compat; lra|]. apply Rinv_le_contravar; lra. }
+  replace (- (1 / (2 * dx)) + / 2 / (2 * (dx * INR n)) + INR i * ((1 / dx - 2 * (/ 2 / (2 * (dx * INR n)))) / INR (n - 1)))
+    with ((1 / (2 * dx)) * ((1 - e) * (2 * t - 1))) by (unfold t, e; field; repeat split; lra).
+  assert (Hh : 0 < 1 / (2 * dx)) by (apply Rdiv_lt_0_compat; lra).
+  assert (Hb : -1 <= (1 - e) * (2 * t - 1) <= 1) by (split; nra).
+  apply Rabs_le. split; nra.
+Qed.
+Lemma sumsq_nonneg a b : 0 <= a ^ 2 + b ^ 2.
+Proof. nra. Qed.
+Lemma ir_phase_sign k z r2 : 0 < k -> 0 <= r2 -> (0 < z -> 0 <= ir_quad k z * r2) /\ (z < 0 -> ir_quad k z * r2 <= 0).
+Proof. intros Hk Hr. destruct (ir_quad_sign k z Hk) as [Ha Hb]. split; intros Hz; [specialize (Ha Hz) | specialize (Hb Hz)]; nra. Qed.
+Lemma lens_phase_sign k f r2 : 0 < k -> 0 < f -> 0 <= r2 -> lens_quad k f * r2 <= 0.
+Proof. intros Hk Hf Hr. destruct (lens_quad_sign k f Hk Hf) as [Ha _]. nra. Qed.
+(* lens phase + impulse-response chirp: one quadratic phase whose coefficient vanishes exactly at z = f *)
+Lemma lens_ir_sum k f z r2 : lens_quad k f * r2 + ir_quad k z * r2 = (lens_quad k f + ir_quad k z) * r2.
+Proof. ring. Qed.
+Lemma lens_ir_cancel k f r2 : f <> 0 -> lens_quad k f * r2 + ir_quad k f * r2 = 0.
+Proof. intros Hf. unfold lens_quad, ir_quad. field. exact Hf. Qed.
